@@ -1410,11 +1410,12 @@ def normalize(relpath, text, tree):
             continue
         if ast.dump(fn) == ast.dump(p[0]):
             continue
+        # renaming first: a local that merely changed its name is not a new temporary
+        nr += len(rename_toward(fn, p[0]))
         nl += inline_local_lambdas(fn, p[0])
         nc += loops_to_comprehensions(fn, p[0])
         nt += propagate_new_temporaries(fn, p[0])
-        m = rename_toward(fn, p[0])
-        nr += len(m)
+        nr += len(rename_toward(fn, p[0]))
     if nl:
         stats['local_helpers'] = nl
     if nc:
